@@ -177,17 +177,29 @@ def growing_normalisers(repo: Repo):
     return out
 
 
-def check_length_dependent_normaliser(repo: Repo, rep):
+def check_length_dependent_normaliser(repo: Repo, rep, shaped=None):
     rid = "C13-R2"
     rep.rule(rid, "no series may be scaled by a factor whose magnitude grows without bound in the LENGTH of the input (x ** (-arange(n))): "
                   "every indicator that contains such a power is interpreted on 130 and on 4000 candles; an element that is a computed "
                   "number on the short input must not be a constant (NaN / inf / 0 after overflow of the factor) on the long one - that "
-                  "would make value i depend on how many candles follow it")
-    n_short, n_long, probe = 130, 4000, 100
-    cands = growing_normalisers(repo)
-    for name, rel, fn, expr in cands:
-        a = IR.run_indicator(repo, rel, fn, n_short, True, max_steps=40_000_000)
-        b = IR.run_indicator(repo, rel, fn, n_long, True, max_steps=40_000_000)
+                  "would make value i depend on how many candles follow it.  Candidates are also taken from C13-R3: every indicator whose "
+                  "EXPRESSION of an element differs between two input lengths although its value does not (a running sum / product anchored at "
+                  "the end of the series) is interpreted on 130 and 12000 candles (default periods) and on 130 and 2500 candles (periods 3)")
+    probe = 100
+    cands = [c + (130, 4000, {}) for c in growing_normalisers(repo)]
+    pubs = {n: (rel, fn) for n, rel, fn in IR.public_indicators(repo)}
+    for nm, fields in sorted((shaped or {}).items()):
+        # the expression of an element changes with the input length although its value (on 60 / 131 candles) does not: a running
+        # product / sum anchored at the END of the series.  Decided on a long input - default periods and the smallest ones
+        if nm in pubs:
+            rel_, fn_ = pubs[nm]
+            cands.append((nm, rel_, fn_, f"expression of series {fields} depends on the input length", 130, 12000, {}))
+            small = {a.arg: 3 for a in fn_.args.args if "period" in a.arg or a.arg in ("length", "window")}
+            if small:
+                cands.append((nm, rel_, fn_, f"expression of series {fields} depends on the input length", 130, 2500, small))
+    for name, rel, fn, expr, n_short, n_long, over in cands:
+        a = IR.run_indicator(repo, rel, fn, n_short, True, max_steps=40_000_000, overrides=dict(over))
+        b = IR.run_indicator(repo, rel, fn, n_long, True, max_steps=40_000_000, overrides=dict(over))
         if a[0] != "ok" or b[0] != "ok":
             rep.undecided_item(f"{name}: length-dependent normaliser `{expr}` - not interpretable on {n_short} / {n_long} candles ({a[0]} / {b[0]})")
             continue
@@ -210,10 +222,10 @@ def check_length_dependent_normaliser(repo: Repo, rep):
             finite = lambda v: isinstance(v, (int, float)) and v == v and abs(v) != float("inf")
             if finite(xv) and (not finite(yv) or abs(xv - yv) > 1e-6 * max(1.0, abs(xv))):
                 rep.violation(rid, f"{name}|{f}|length-dependent-normaliser",
-                              f"indicator {name}: element {probe} of series '{f}' is {xv!r} when computed on {n_short} candles and {yv!r} when the same candles are followed by "
+                              f"indicator {name}{' ' + str(over) if over else ''}: element {probe} of series '{f}' is {xv!r} when computed on {n_short} candles and {yv!r} when the same candles are followed by "
                               f"{n_long - n_short} more: `{expr}` in {rel} over- / underflows with the length of the input, so the value of candle {probe} depends on how many candles follow it")
-            rep.instance(rid, f"{name}|{f}", {"indicator": name, "field": f, "expression": expr})
-    rep.extra["length_dependent_normalisers"] = [c[0] for c in cands]
+            rep.instance(rid, f"{name}|{f}|{n_long}{'|small-periods' if over else ''}", {"indicator": name, "field": f, "expression": expr, "long_input": n_long})
+    rep.extra["length_dependent_normalisers"] = sorted({c[0] for c in cands})
 
 
 def prefix_one(args):
@@ -226,6 +238,7 @@ def prefix_one(args):
                 fn = pfn
     from vlib.indic_vals import eval_dag
     out = []
+    shaped = set()
     for n1, n2 in ((45, 60), (60, 131)):
         a = IR.run_indicator(repo, rel, fn, n1, True)
         b = IR.run_indicator(repo, rel, fn, n2, True)
@@ -243,6 +256,8 @@ def prefix_one(args):
                 p, q = x.data[i], y.data[i]
                 if isinstance(p, D) and isinstance(q, D) and p.h == q.h:
                     continue
+                if isinstance(p, D) and isinstance(q, D):
+                    shaped.add(f)           # the EXPRESSION of element i depends on the length of the input (its value need not)
                 try:
                     pv = eval_dag(p, vs) if isinstance(p, D) else p
                     qv = eval_dag(q, vl) if isinstance(q, D) else q
@@ -263,6 +278,7 @@ def prefix_one(args):
             if bad:
                 break
         out.append((n1, n2, bad[0] if bad else "ok", bad))
+    out.append((0, 0, "shaped", sorted(shaped)))
     return name, rel, out
 
 
@@ -281,6 +297,10 @@ def check_prefix_consistency(repo: Repo, rep, skip=()):
         if name in EXEMPT or name in skip:
             continue            # (a look-ahead already reported by R1 shows as a length dependence too)
         for n1, n2, status, info in res:
+            if status == "shaped":
+                if info:
+                    rep.extra.setdefault("length_shaped_expressions", {})[name] = info
+                continue
             if status == "undecided":
                 continue            # the dependence rule reports what cannot be interpreted
             if status == "differs":
@@ -292,7 +312,6 @@ def check_prefix_consistency(repo: Repo, rep, skip=()):
 
 
 def run(repo: Repo, rep, tier: str):
-    rep.guarded(check_length_dependent_normaliser, repo, rep)
     rid = "C13-R1"
     rep.rule(rid, "dependence analysis of every public indicator (sequential=True; default parameters and shifted periods): no element "
                   "i of any returned series may depend - through data or control flow - on a candle j > i")
@@ -329,6 +348,8 @@ def run(repo: Repo, rep, tier: str):
     rep.extra["indicators_analysed"] = len(inds)
     lookahead = {v["key"].split("|")[1] for v in list(rep.violations) + list(rep.known_hits) if v["key"].startswith(rid + "|")}
     rep.guarded(check_prefix_consistency, repo, rep, lookahead)
+    known = {k["key"].split("|")[1] for k in rep.known_hits if k["key"].startswith(rid + "|")}
+    rep.guarded(check_length_dependent_normaliser, repo, rep, {n: f for n, f in rep.extra.get("length_shaped_expressions", {}).items() if n not in known})
     rep.extra["runs_decided"] = decided
     rep.extra["runs_undecided"] = undecided
     rep.extra["exempt"] = EXEMPT
